@@ -24,8 +24,8 @@ fn describe() -> Describe {
     Describe {
         id: "C15",
         level: "model_checking",
-        rule: "stateright BFS over ALL histories that start from the empty graph or one of 5 library graphs (single block, chain, \
-               diamond, self-loop with exit, rep-style loop) and apply new_block, tagged push, unconditional/conditional edges \
+        rule: "stateright BFS over ALL histories that start from the empty graph, one of 5 library graphs (single block, chain, \
+               diamond, self-loop with exit, rep-style loop) or a 3-block chain whose indices descend along the edges, and apply new_block, tagged push, unconditional/conditional edges \
                (guards g / !g), set_entry, set_exit, merge, append(lib), insert(lib), remove_instruction(first/last), \
                Block::append to the stated depth (error paths with a non-existing block included). In every state: edges join \
                existing blocks, predecessor/successor/edges_in/edges_out agree with edges(), instruction indices unique per block, \
@@ -85,6 +85,17 @@ pub fn library(i: usize) -> Cfg {
             c.conditional_edge(0, 1, ng()).unwrap();
             c.set_entry(0).unwrap();
             c.set_exit(1).unwrap();
+        }
+        5 => {
+            // a chain whose block indices DESCEND along the edges (entry created last): 2 -> 1 -> 0.
+            // Only a starting graph, never an argument of append/insert (NLIB stays 5).
+            tag(c.new_block().unwrap(), 150);
+            tag(c.new_block().unwrap(), 151);
+            tag(c.new_block().unwrap(), 152);
+            c.unconditional_edge(2, 1).unwrap();
+            c.unconditional_edge(1, 0).unwrap();
+            c.set_entry(2).unwrap();
+            c.set_exit(0).unwrap();
         }
         _ => {
             // rep-style: head -> body -> head, head -> exit
@@ -242,7 +253,7 @@ impl Subject for Sub {
     }
     fn ops(&self, c: &Cfg, hist: &[Op]) -> Vec<Op> {
         if hist.is_empty() {
-            return (0..=NLIB).map(Op::Start).collect();
+            return (0..=NLIB + 1).map(Op::Start).collect();
         }
         let mut v = Vec::new();
         let mut blocks: Vec<usize> = c.blocks().iter().map(|b| b.index()).collect();
